@@ -33,7 +33,7 @@ ASSUMPTIONS = [
 TECHNIQUE = "explicit-state BFS over operation histories on the real objects vs reference state machine"
 
 DEPTH = {"quick": {"alru": 4, "acpi": 4, "alazy": 8, "alru-pair": 4, "acpi-pair": 4, "alazy-pair": 6},
-         "thorough": {"alru": 6, "acpi": 6, "alazy": 10, "alru-pair": 6, "acpi-pair": 5, "alazy-pair": 8}}
+         "thorough": {"alru": 6, "acpi": 6, "alazy": 10, "alru-pair": 6, "acpi-pair": 5, "alazy-pair": 10}}
 CLOCK_STARTS = {0: (None, 1), 5: (None, 1, 4)}  # None = the large default start (1000000); small: 1 and ttl-1
 
 
